@@ -1,6 +1,230 @@
 package main
 
-type simDriver struct{}
+// Level 2: the full in-process core (harness/internal/simcore): real environment.Manager
+// (CreateEnvironment, TeardownEnvironment), real task.Manager, simulated Mesos master and
+// executors.  Used for what the bare Environment cannot do: the real TeardownEnvironment
+// (leave_<state> hooks of all weights, end stamps while RUNNING, DESTROY / after_DESTROY hooks as
+// calls and as hook tasks, cancellation of pending calls) and START_ACTIVITY with real tasks.
+// A case is: create the environment (DEPLOY + CONFIGURE, no hooks there), then the operations
+// START_ACTIVITY (optional) and TEARDOWN.
 
-func newSimDriver(workDir string) (*simDriver, error) { return &simDriver{}, nil }
-func (s *simDriver) run(in Input) Obs                  { return Obs{Note: "sim not implemented"} }
+import (
+	"fmt"
+	"os"
+	"path/filepath"
+	"strconv"
+	"strings"
+	"sync"
+	"time"
+
+	"github.com/AliceO2Group/Control/common/event/topic"
+	"github.com/AliceO2Group/Control/common/utils/uid"
+	"github.com/AliceO2Group/Control/core/environment"
+	"github.com/AliceO2Group/Control/core/integration"
+	"github.com/AliceO2Group/Control/core/the"
+
+	"verif/harness/internal/simcore"
+)
+
+const simBasicClass = `name: %s
+control:
+  mode: basic
+wants:
+  cpu: 0.1
+  memory: 64
+command:
+  env: []
+  shell: true
+  value: "true"
+`
+
+type simDriver struct {
+	s   *simcore.Sim
+	rec *Recorder
+	cap *capWriter
+	n   int
+	mu  sync.Mutex
+}
+
+func newSimDriver(workDir string) (*simDriver, error) {
+	rec := NewRecorder()
+	s, err := simcore.New(simcore.Options{
+		WorkDir:   workDir,
+		Plugins:   map[string]integration.NewFunc{"verif": newPlugin(rec)},
+		Workflows: map[string]string{}, TaskClasses: map[string]string{},
+		Agents: []simcore.Agent{{Hostname: "host1", CPUs: 64, Mem: 65536, Ports: [][2]uint64{{9000, 9900}, {30000, 30900}},
+			Attributes: map[string]string{"machine_id": "host1"}}},
+		Settings: map[string]interface{}{"metrics.port": 0},
+		Quiet:    os.Getenv("SIM_VERBOSE") == "",
+	})
+	if err != nil {
+		return nil, err
+	}
+	d := &simDriver{s: s, rec: rec, cap: &capWriter{rec: rec}}
+	the.VerifC08SetEventWriter(topic.Environment, d.cap)
+	the.VerifC08SetEventWriter(topic.Run, d.cap)
+	// hook tasks triggered: one record per trigger command, made when the core sends it
+	s.OnMsg = func(m *simcore.MsgRecord) {
+		if m.Name != "MesosCommand_TriggerHook" {
+			return
+		}
+		live := s.LiveTasks()
+		var ids []int
+		for _, tid := range m.TaskIds {
+			if id, ok := hookIdOfClass(live[tid].Class); ok {
+				ids = append(ids, id)
+			}
+		}
+		if len(ids) > 0 {
+			rec.add(Rec{Kind: "T", Tasks: ids})
+		}
+	}
+	return d, nil
+}
+
+// class names of hook tasks: c<case>k<hook id>
+func hookIdOfClass(cls string) (int, bool) {
+	i := strings.LastIndex(cls, "k")
+	if i < 0 || !strings.HasPrefix(cls, "c") {
+		return 0, false
+	}
+	id, err := strconv.Atoi(cls[i+1:])
+	return id, err == nil
+}
+
+func (d *simDriver) workflowYAML(name string, n int, in Input) string {
+	var b strings.Builder
+	fmt.Fprintf(&b, "name: %s\ndefaults:\n  deploy_timeout: 5s\nroles:\n", name)
+	fmt.Fprintf(&b, "  - name: \"t0\"\n    task:\n      load: c%dt0\n      critical: true\n", n)
+	for _, h := range in.Hooks {
+		switch h.Kind {
+		case "call":
+			fmt.Fprintf(&b, "  - name: \"c%d\"\n    call:\n      func: verif.Probe(%d)\n      trigger: %s\n      await: %s\n      timeout: 5s\n      critical: %v\n",
+				h.Id, h.Id, h.Trig, h.Await, h.Crit)
+		case "task":
+			fmt.Fprintf(&b, "  - name: \"%s\"\n    task:\n      load: c%dk%d\n      trigger: %s\n      timeout: 5s\n      critical: %v\n",
+				taskName(h.Id), n, h.Id, h.Trig, h.Crit)
+		}
+	}
+	return b.String()
+}
+
+func (d *simDriver) run(in Input) (obs Obs) {
+	rec := d.rec
+	rec.Reset()
+	d.n++
+	n := d.n
+	name := fmt.Sprintf("case%d", n)
+	os.WriteFile(filepath.Join(d.s.RepoDir, "tasks", fmt.Sprintf("c%dt0.yaml", n)), []byte(fmt.Sprintf(simBasicClass, fmt.Sprintf("c%dt0", n))), 0o644)
+	for _, h := range in.Hooks {
+		if h.Kind == "task" {
+			cls := fmt.Sprintf("c%dk%d", n, h.Id)
+			os.WriteFile(filepath.Join(d.s.RepoDir, "tasks", cls+".yaml"), []byte(fmt.Sprintf(simBasicClass, cls)), 0o644)
+		}
+	}
+	os.WriteFile(filepath.Join(d.s.RepoDir, "workflows", name+".yaml"), []byte(d.workflowYAML(name, n, in)), 0o644)
+	d.s.Consul.Set("o2/runtime/run_number", "0")
+	d.cap.setEnv("") // nothing of the creation is recorded
+	id := uid.New()
+	type cres struct {
+		id  uid.ID
+		err error
+	}
+	cch := make(chan cres, 1)
+	go func() {
+		i, err := d.s.Envman.CreateEnvironment(name, map[string]string{}, false, id, false)
+		cch <- cres{i, err}
+	}()
+	select {
+	case r := <-cch:
+		if r.err != nil {
+			obs.Note = "cannot create environment: " + r.err.Error()
+			return
+		}
+	case <-time.After(30 * time.Second):
+		obs.Note = "creation did not return"
+		obs.Hung = true
+		return
+	}
+	env, err := d.s.Envman.Environment(id)
+	if err != nil || env == nil || env.CurrentState() != "CONFIGURED" {
+		obs.Note = "environment not CONFIGURED after creation"
+		return
+	}
+	d.settle(id.String(), "CONFIGURED")
+	rec.Reset()
+	d.cap.setEnv(id.String())
+	for i := range in.Ops {
+		op := &in.Ops[i]
+		rec.SetOp(i)
+		for _, h := range op.Fail {
+			rec.SetFail(h, i)
+		}
+		for _, h := range op.Slow {
+			rec.SetSlow(h, i, slowDelay)
+		}
+		rec.add(Rec{Kind: "O"})
+		var opErr error
+		done := make(chan struct{})
+		go func() {
+			defer close(done)
+			switch op.Ev {
+			case "TEARDOWN":
+				opErr = d.s.Envman.TeardownEnvironment(id, true)
+			case "START_ACTIVITY":
+				opErr = env.TryTransition(environment.VerifC10RealTransition{
+					T: environment.NewStartActivityTransition(d.s.Taskman), Before: func() { rec.add(Rec{Kind: "B"}) }})
+			case "STOP_ACTIVITY":
+				opErr = env.TryTransition(environment.VerifC10RealTransition{
+					T: environment.NewStopActivityTransition(d.s.Taskman), Before: func() { rec.add(Rec{Kind: "B"}) }})
+			default:
+				opErr = fmt.Errorf("operation %s not supported at the sim level", op.Ev)
+			}
+		}()
+		select {
+		case <-done:
+		case <-time.After(30 * time.Second):
+			obs.Hung = true
+			obs.CrashAt = i
+			obs.Recs = rec.Records()
+			return
+		}
+		rec.add(Rec{Kind: "X"})
+		oo := OpObs{Err: classify(opErr), State: env.CurrentState(), RnField: env.GetCurrentRunNumber()}
+		if opErr != nil {
+			oo.ErrText = opErr.Error()
+		}
+		oo.Pending = pendingOf(env, rec)
+		if vs, err := env.Workflow().ConsolidatedVarStack(); err == nil {
+			oo.Vars = snapOf(vs)
+		}
+		obs.Ops = append(obs.Ops, oo)
+		switch op.Ev {
+		case "START_ACTIVITY":
+			d.settle(id.String(), "RUNNING")
+		case "STOP_ACTIVITY":
+			d.settle(id.String(), "CONFIGURED")
+		}
+	}
+	waitQuiet(rec)
+	obs.Recs = rec.Records()
+	d.cap.setEnv("")
+	return
+}
+
+// settle waits until the task manager has digested the state announcements of the environment's
+// controlled task: task.Manager handles them in goroutines of their own, and one that is still
+// running when the teardown releases the task dereferences the task's cleared parent role
+// (core/task/manager.go updateTaskState -> Task.SendEvent; seen as a SIGSEGV about once in a
+// hundred immediate teardowns - not a matter of C08-C10, reported to the coordinator).
+func (d *simDriver) settle(envId, state string) {
+	simcore.WaitFor(2*time.Second, func() bool {
+		for _, t := range d.s.Taskman.VerifRoster() {
+			if t.EnvId == envId && strings.HasSuffix(t.ClassName, "t0") && t.State != state {
+				return false
+			}
+		}
+		return true
+	})
+	time.Sleep(2 * time.Millisecond)
+}
